@@ -58,6 +58,28 @@ def parse_dispatch(fn):
     return kinds
 
 
+def enum_lookup(fn):
+    """the spellings under which ConfigValue.parse looks a member name up, in source order: every subscript self.type[...] inside the Enum branch;
+    the branch must try the member number (self.type(int(s))) first"""
+    for st in fn.body:
+        if (isinstance(st, ast.If) and isinstance(st.test, ast.Call) and isinstance(st.test.func, ast.Name) and st.test.func.id == 'issubclass'
+                and 'Enum' in ast.unparse(st.test.args[1])):
+            subs = sorted((n for n in ast.walk(st) if isinstance(n, ast.Subscript) and _is_self_attr(n.value, 'type')), key=lambda n: (n.lineno, n.col_offset))
+            calls = sorted((n for n in ast.walk(st) if isinstance(n, ast.Call) and _is_self_attr(n.func, 'type')), key=lambda n: (n.lineno, n.col_offset))
+            if len(calls) != 1 or ast.unparse(calls[0]) != 'self.type(int(s))' or not subs or (calls[0].lineno, calls[0].col_offset) > (subs[0].lineno, subs[0].col_offset):
+                raise Untranslatable("enum branch does not try the member number first")
+            if not (len(st.body) == 1 and isinstance(st.body[0], ast.Try)) or any(isinstance(n, (ast.For, ast.While, ast.Assign)) for n in ast.walk(st)):
+                raise Untranslatable("enum branch is not a chain of try/except lookups")
+            out = []
+            for n in subs:
+                k = {'s': 'NExact', 's.upper()': 'NUpper', 's.lower()': 'NLower'}.get(ast.unparse(n.slice))
+                if k is None:
+                    raise Untranslatable("enum member looked up as " + ast.unparse(n.slice))
+                out.append(k)
+            return out
+    raise Untranslatable("no Enum branch in parse")
+
+
 def get_order(fn):
     order = []
     for s in fn.body:
@@ -103,6 +125,7 @@ def generate(repo_root='/repo'):
     path = os.path.join(repo_root, 'pyroll/core/config.py')
     tree = ast.parse(open(path).read())
     kinds = parse_dispatch(_find(tree, 'ConfigValue', 'parse'))
+    lookup = enum_lookup(_find(tree, 'ConfigValue', 'parse'))
     order = get_order(_find(tree, 'ConfigValue', '__get__'))
     raises, vf = update_mode(_find(tree, 'ConfigMeta', 'update'))
     b = lambda x: 'true' if x else 'false'
@@ -110,5 +133,6 @@ def generate(repo_root='/repo'):
            "From PyrollLib Require Import Config.\n"
            f"Definition gen_params : params :=\n  {{| p_dispatch := [{'; '.join(kinds)}];\n"
            f"     p_order := [{'; '.join(order)}];\n     p_update_raises := {b(raises)};\n"
-           f"     p_update_validates_first := {b(vf)} |}}.\n")
-    return txt, {'dispatch': kinds, 'order': order, 'update_raises': raises, 'update_validates_first': vf}
+           f"     p_update_validates_first := {b(vf)} |}}.\n"
+           f"Definition gen_enum_lookup : list nametr := [{'; '.join(lookup)}].\n")
+    return txt, {'dispatch': kinds, 'order': order, 'enum_lookup': lookup, 'update_raises': raises, 'update_validates_first': vf}
